@@ -11,17 +11,36 @@ class Unknown(Exception):
     pass
 
 
+def _flatten_add(e):
+    e = peel(e)
+    if e.get("k") == "Binary" and e.get("op") in ("+", "Add"):
+        return _flatten_add(e["l"]) + _flatten_add(e["r"])
+    return [e]
+
+
 class WPEval:
-    def __init__(self, crate, fn):
+    def __init__(self, crate, fn, adt=TYPED_E, body=None, pid=None, depth=0):
         self.crate = crate
         self.fn = fn
-        ps = [p for p in fn["params"] if p.get("k") == "Binding"]
-        self.pid = ps[0]["id"] if ps else None
+        self.adt = adt
+        self.depth = depth
+        if pid is None:
+            ps = [p for p in fn["params"] if p.get("k") == "Binding"]
+            pid = ps[0]["id"] if ps else None
+        self.pid = pid
+        self.body = body if body is not None else fn["body"]
         self.atoms = {}  # name -> node
+        self.alias = set()  # bindings of the whole operand (`expr @ (A | B) => …`, `e => …`)
 
     # ---- helpers
     def _is_param(self, e):
-        return local_of(peel_refs(e)) == self.pid
+        e = peel_refs(e)
+        while e.get("k") == "MethodCall" and e["name"] in ("as_ref", "deref", "borrow", "as_deref") and not e["args"]:
+            e = peel_refs(e["recv"])
+        return local_of(e) == self.pid or (local_of(e) is not None and local_of(e) in self.alias)
+
+    def _mentions_param(self, e):
+        return any(x.get("k") == "Path" and x["res"].get("r") == "local" and (x["res"].get("id") == self.pid or x["res"].get("id") in self.alias) for x in walk(e))
 
     def _atom(self, node, env):
         c = callee(node) if node.get("k") in ("Call", "MethodCall") else None
@@ -32,7 +51,12 @@ class WPEval:
         return env["atoms"][name]
 
     def _arm_hit(self, a, env):
-        vs = pat_variants(a["pat"], TYPED_E)
+        p = a["pat"]
+        while p.get("k") in ("Ref", "Deref"):
+            p = p["pat"]
+        if p.get("k") == "Binding":
+            self.alias.add(p["id"])
+        vs = pat_variants(a["pat"], self.adt)
         if vs is not None and env["V"] not in vs:
             return False
         return "guard" not in a or self.cond(a["guard"], env)
@@ -111,16 +135,47 @@ class WPEval:
             return self.value(env["lets"][e["res"]["id"]], env)
         if k in ("If", "Match"):
             raise Unknown(k)
-        paren = any(y.get("k") == "Lit" and isinstance(y.get("lit"), dict) and y["lit"].get("v") == "(" for y in walk(e))
-        prints = any(y.get("k") == "MethodCall" and y["name"] == "pretty_print" and self._is_param(y["recv"]) for y in walk(e))
-        if not prints:
+        # a concatenation  a + b + c : find the summand that prints the operand and look at its neighbours
+        chain = _flatten_add(e)
+        for _ in range(3):  # `let base = …; base + m::operator("^") + …`
+            chain = [env["lets"][c["res"]["id"]] if c.get("k") == "Path" and c["res"].get("r") == "local" and c["res"].get("id") in env["lets"] else c for c in chain]
+            chain = [y for c in chain for y in _flatten_add(c)]
+        idxs = [i for i, s_ in enumerate(chain) if self._mentions_param(s_)]
+        if not idxs:
             raise Unknown("leaf that does not print the operand")
-        return ("paren" if paren else "bare", e)
+        i = idxs[0]
+        s_ = peel(chain[i])
+
+        def is_lit(n, ch):
+            return (not self._mentions_param(n)) and any(y.get("k") == "Lit" and isinstance(y.get("lit"), dict) and y["lit"].get("v") == ch for y in walk(n))
+
+        if 0 < i < len(chain) - 1 and is_lit(chain[i - 1], "(") and is_lit(chain[i + 1], ")"):
+            return ("paren", e)
+        if len(chain) > 1 and s_.get("k") in ("If", "Match", "Block"):
+            return self.value(s_, env)
+        if s_.get("k") == "Call" and len(s_.get("args", [])) == 1 and self._is_param(s_["args"][0]):
+            c = callee(s_) or ""
+            sub = self.crate.hir.get(c)
+            if sub is not None and self.depth < 3:
+                inner = WPEval(self.crate, sub, self.adt, depth=self.depth + 1)
+                inner.atoms = self.atoms  # shared: the caller enumerates them
+                res, _node = inner.value(sub["body"], {"V": env["V"], "atoms": env["atoms"], "lets": {}})
+                return (res, s_)
+            raise Unknown("operand passed to " + c)
+        if s_.get("k") == "MethodCall" and s_["name"] == "pretty_print" and self._is_param(s_["recv"]):
+            return ("bare", e)
+        if len(chain) == 1:
+            # legacy shape: one expression that contains both the literal parentheses and the printing call
+            paren = any(y.get("k") == "Lit" and isinstance(y.get("lit"), dict) and y["lit"].get("v") == "(" for y in walk(e))
+            prints = any(y.get("k") == "MethodCall" and y["name"] == "pretty_print" and self._is_param(y["recv"]) for y in walk(e))
+            if prints:
+                return ("paren" if paren else "bare", e)
+        raise Unknown("leaf that does not print the operand")
 
 
-def evaluate(crate, fn, variants):
+def evaluate(crate, fn, variants, adt=TYPED_E, body=None, pid=None):
     """-> ({variant: [(assignment, result, leaf node)]}, evaluator, reason)   (None, ev, reason) when undecidable"""
-    ev = WPEval(crate, fn)
+    ev = WPEval(crate, fn, adt, body, pid)
     table = {}
     for v in variants:
         rows = []
@@ -133,7 +188,7 @@ def evaluate(crate, fn, variants):
             atoms = pending.pop()
             env = {"V": v, "atoms": atoms, "lets": {}}
             try:
-                res, node = ev.value(fn["body"], env)
+                res, node = ev.value(ev.body, env)
                 rows.append((dict(atoms), res, node))
             except Unknown as u:
                 name = str(u)
